@@ -54,7 +54,8 @@ Configs == {
   <<F("fixed", "", FALSE, <<"S_a">>), F("jid-single", "vj", TRUE, <<>>), F("jid-multi", "vjm", FALSE, <<"S_jbare">>),
     F("list-multi", "vlm", FALSE, <<"S_a", "S_b">>), F("list-single", "vls", FALSE, <<>>)>>,
   <<F("hidden", "vh", FALSE, <<"S_a">>), F("text-private", "vp", FALSE, <<>>), F("boolean", "vb", TRUE, <<"S_1">>),
-    F("text-multi", "vm", FALSE, <<"S_a", "S_b">>)>>}
+    F("text-multi", "vm", FALSE, <<"S_a", "S_b">>)>>,
+  <<>>}                                 \* a form without fields (form.New(), a cancellation, an empty result)
 Vars == {"vb", "vt", "vm", "vj", "vjm", "vlm", "vls", "vh", "vp", "nofield", ""}   \* "" is the name of a fixed field
 
 FieldOf(c, var) == IF \E i \in 1..Len(c) : c[i].var = var
